@@ -3,6 +3,8 @@ package main
 import (
 	"bytes"
 	"fmt"
+	"runtime"
+	"sync/atomic"
 
 	"github.com/ipld/go-car/cmd/car/lib"
 	carv2 "github.com/ipld/go-car/v2"
@@ -47,9 +49,17 @@ func checkLibraryAccepts(s *sState, path string, b []byte) string {
 		if err := lib.VerifyCar(path); err != nil {
 			return "lib.VerifyCar rejects the finished file: " + err.Error()
 		}
+		// lib.VerifyCar opens the file a second time and leaves that handle to the garbage collector;
+		// millions of calls in one process run into RLIMIT_NOFILE before the finalizers do. Not a
+		// property of the archive format: collect explicitly now and then.
+		if verifyCalls.Add(1)%512 == 0 {
+			runtime.GC()
+		}
 	}
 	return ""
 }
+
+var verifyCalls atomic.Int64
 
 // checkFlattenVsRegenerate (C11, last sentence): the index a writing session flattens into
 // the file and an index regenerated from the finished payload answer every lookup identically
